@@ -2,23 +2,46 @@
 C04 — Parser descriptors state exactly what a CATS document declares.
 
 Property theorems over `Model/Cats/{Lexer,Parser,Printer}.lean` (the language of `catbuffer.lark` and the objects
-`CatbufferTransformer` builds) on cats-a's `Model/Cats/Syntax.lean` (`toLegacy`, `render`).
+`CatbufferTransformer` builds) on cats-a's `Model/Cats/Syntax.lean` (`toLegacy`, `render`). Helper lemmas are in
+`Proofs/Cats*.lean`; the well-formedness predicates (`WFDeclsA` and its parts) in `Proofs/CatsWF.lean`.
 
-Status. The headline statement of the design,
+PROVED (character level, for all inputs of the stated shape, no size bounds):
+* `parse_render` — `∀ ds, WFDeclsA ds → ds ≠ [] → parse (print ds) = ok ds`: the headline, for any mix and order of
+  aliases, enums and structs, every member form, every attribute form on enums / structs / members; it goes through
+  the whole model (physical lines, `_NL`, the `Indenter`, blocks, the statement loops, every line parser and terminal
+  scanner). `parse_render_plain`, `parse_render_enum`, `parse_render_struct`, `parse_render_alias` are special cases.
+* line level: `parse_render_alias_line`, `parse_render_enum_header`, `parse_render_enum_value`,
+  `parse_render_struct_header`, `parse_render_member` (all member forms), `parse_render_struct_attribute`,
+  `parse_render_field_attribute`.
+* `legacy_of_parse` (descriptors of the parsed text = descriptors of what was printed), as a corollary.
+* `print_parse_fixpoint_partial`: `parse doc = ok ds → WFDeclsA ds → parse (print ds) = ok ds`. PARTIAL: the hypothesis
+  `WFDeclsA ds` is not derived from `parse doc = ok ds` (that the parser only produces well-formed declarations is
+  not proved; documents with comments produce declarations outside `WFDeclsA`).
+* trivia: `parse_crlf` (for EVERY document without carriage returns, comments included: `\r\n` line ends give the
+  same result, errors included), `parse_blank_lines` (with or without the empty line between printed declarations),
+  `tab_is_four_spaces` / `tab_or_four_spaces_same_line` (a tab in the indentation of a code line = four blanks, at
+  the level of the logical line), `decimal_numeral_roundtrip`, `hex_dec_same_value` (instances).
 
-    parse_render : ∀ ds, WFDecls ds → Parser.parse (Printer.print ds).toList = .ok ds
+* `comment_roundtrip`: at the level of one comment, the `#` lines the printer emits (one line per piece, an empty `#`
+  line per paragraph break) are normalised by `Comment.ofString` (= `Comment.__init__`) back to the comment, for every
+  comment in normal form.
 
-(and with it `legacy_of_parse` and `print_parse_fixpoint`), is NOT proved for whole documents; on the model it is
-checked by the correspondence run only (`harness/c04.py`: `parse (print ds) = ds` for every parsed document). What
-is proved here, for all inputs of the stated shape, is the character-level round trip of the alias declaration line
-(`parse_render_alias_partial`: `parseTopLine (render a) = a` for every well-formed alias, both type forms, every
-name, every size), the numeral round trip it rests on (`decimal_numeral_roundtrip`, any number), the legacy
-descriptor of a parsed alias line (`legacy_of_parse_alias_partial`), and the indentation law `tab_is_four_spaces`.
-Enums, structs, members, attributes, comments and the block structure have no round-trip theorem yet.
+NOT PROVED:
+* comments inside `parse_render`: `WFDeclsA` requires `comment = none` everywhere. That comment lines of a document
+  are merged into one token, attached to the following declaration / member, and that free comments are dropped, is
+  modelled and tested by the correspondence run, but the document-level theorem does not cover it (`comment_roundtrip`
+  is the piece about the comment text itself).
+* that the parser's output is always printable (`parse doc = ok ds → WFDeclsA ds` for comment-free documents), hence
+  the unconditional `print_parse_fixpoint`.
+* hexadecimal numerals in general (no upper-case hex printer exists to state it against), blank lines inside
+  declarations and tabs-vs-blanks at document level (only the line-level statement), trailing blanks, loose token
+  spacing. These are covered by the correspondence run only.
 -/
 import SymbolVerif.Model.Cats.Parser
 import SymbolVerif.Model.Cats.Printer
-import SymbolVerif.Proofs.CatsDocument
+import SymbolVerif.Proofs.CatsAttrDocument
+import SymbolVerif.Proofs.CatsCrlf
+import SymbolVerif.Proofs.CatsComment
 namespace SymbolVerif.C04
 open SymbolVerif.Cats SymbolVerif.Cats.Lexer SymbolVerif.Cats.Parser
 
@@ -87,30 +110,57 @@ theorem parse_render_member (m : Member) (h : WFMember m) : parseStructLine fals
 
 /-! ### document level -/
 
-/-- **parse_render** for declarations without attributes and comments (`WFDecls`, `Proofs/CatsWF.lean`: names in
-    their lexical classes, the eight integer types, natural numbers, members not called `inline`, at least one
-    member per struct): the text the printer emits for any non-empty list of such declarations — aliases, enums
-    with any number of values, structs with every member form, in any order — parses back to exactly these
-    declarations. Character level, through the whole model: line splitting, indentation events, blocks, statement
-    loops and every line parser. -/
-theorem parse_render (ds : Schema) (h : WFDecls ds) (hne : ds ≠ []) : parse (Printer.print ds).toList = .ok ds :=
+/-- **parse_render**: for every non-empty list of well-formed declarations without comments (`WFDeclsA`,
+    `Proofs/CatsWF.lean`) the text the printer emits parses back to exactly these declarations. Character level,
+    through the whole model: line splitting, indentation events, blocks, statement loops and every line parser.
+
+    Covered: aliases (all 8 integer types, `binary_fixed(n)`), enums with any number of values (zero included)
+    and any number of `@is_bitwise` lines, structs (plain / `abstract` / `inline`) with any non-empty list of
+    members of every form (plain member of a named type / builtin integer / array counted, sized, `__FILL__`, each
+    with or without a condition with each of the four operators and numeric or constant values; `__value__`;
+    `make_const` / `make_reserved` with integer or enum constants; `sizeof`; named and unnamed inline), struct
+    attributes (`@is_aligned`, `@is_size_implicit`, `@size(p)`, `@initializes(p, C)`, `@discriminator(p, …)`,
+    `@comparer(p[!ripemd_keccak_256], …)`, any number, any order) and member attributes on plain members and
+    `__value__` (`@is_byte_constrained`, `@alignment(n[, [not] pad_last])`, `@sort_key(p)`, `@sizeref(p[, n])`),
+    with the exact value lists lark produces (`None` placeholders). In any mix and order.
+    Not covered: comments (attached or free), see the header. -/
+theorem parse_render (ds : Schema) (h : WFDeclsA ds) (hne : ds ≠ []) : parse (Printer.print ds).toList = .ok ds :=
+  parse_printA ds h hne
+
+/-- the attribute-free special case (`WFDecls`), kept because the rejection theorems of C11 are stated over it -/
+theorem parse_render_plain (ds : Schema) (h : WFDecls ds) (hne : ds ≠ []) : parse (Printer.print ds).toList = .ok ds :=
   parse_print ds h hne
+
+/-- declarations without attributes are a special case of `WFDeclsA` -/
+theorem wfDeclsA_of_wfDecls (ds : Schema) (h : WFDecls ds) : WFDeclsA ds := fun d hd => wfDeclA_of_wfDecl d (h d hd)
+
+/-! ### attribute lines -/
+
+/-- every struct attribute form is read back from its printed line, with the value list of the parser -/
+theorem parse_render_struct_attribute (a : Attribute) (h : WFStructAttr a) :
+    ∃ text, (Printer.printAttribute a).toList = '@' :: text ∧ structAttribute text = some a :=
+  structAttribute_render a h
+
+/-- every member attribute form, likewise (`@alignment(8)` gives `[8, None, None]`, `@sizeref(x)` gives `[x]`) -/
+theorem parse_render_field_attribute (a : Attribute) (h : WFFieldAttr a) :
+    ∃ text, (Printer.printAttribute a).toList = '@' :: text ∧ fieldAttribute text = some a :=
+  fieldAttribute_render a h
 
 /-- one enum declaration (any number of values, zero included) -/
 theorem parse_render_enum (e : Enum) (h : WFEnum e) : parse (Printer.print [.enum e]).toList = .ok [.enum e] :=
-  parse_render [.enum e] (by intro d hd; simp only [List.mem_singleton] at hd; subst hd; exact .enum e h) (by simp)
+  parse_render_plain [.enum e] (by intro d hd; simp only [List.mem_singleton] at hd; subst hd; exact .enum e h) (by simp)
 
 /-- one struct declaration with any non-empty list of well-formed members -/
 theorem parse_render_struct (s : Struct) (h : WFStruct s) : parse (Printer.print [.struct s]).toList = .ok [.struct s] :=
-  parse_render [.struct s] (by intro d hd; simp only [List.mem_singleton] at hd; subst hd; exact .struct s h) (by simp)
+  parse_render_plain [.struct s] (by intro d hd; simp only [List.mem_singleton] at hd; subst hd; exact .struct s h) (by simp)
 
 /-- one alias declaration -/
 theorem parse_render_alias (a : Alias) (h : WFAlias a) (hc : a.comment = none) :
     parse (Printer.print [.alias a]).toList = .ok [.alias a] :=
-  parse_render [.alias a] (by intro d hd; simp only [List.mem_singleton] at hd; subst hd; exact .alias a h hc) (by simp)
+  parse_render_plain [.alias a] (by intro d hd; simp only [List.mem_singleton] at hd; subst hd; exact .alias a h hc) (by simp)
 
 /-- the descriptors of the parsed text are the descriptors of the declarations that were printed -/
-theorem legacy_of_parse (ds : Schema) (h : WFDecls ds) (hne : ds ≠ []) :
+theorem legacy_of_parse (ds : Schema) (h : WFDeclsA ds) (hne : ds ≠ []) :
     (parse (Printer.print ds).toList).map (fun r => r.map Decl.toLegacy) = .ok (ds.map Decl.toLegacy) := by
   rw [parse_render ds h hne]
   rfl
@@ -118,9 +168,40 @@ theorem legacy_of_parse (ds : Schema) (h : WFDecls ds) (hne : ds ≠ []) :
 /-- printing what was parsed and parsing again gives the same declarations, for every document whose declarations
     are well-formed in the sense above (that the parser only produces such declarations is not proved here; on the
     model and on the implementation it is checked by the correspondence run) -/
-theorem print_parse_fixpoint_partial (doc : Chars) (ds : Schema) (_hparse : parse doc = .ok ds) (h : WFDecls ds)
+theorem print_parse_fixpoint_partial (doc : Chars) (ds : Schema) (_hparse : parse doc = .ok ds) (h : WFDeclsA ds)
     (hne : ds ≠ []) : parse (Printer.print ds).toList = .ok ds :=
   parse_render ds h hne
+
+/-! ### comments -/
+
+/-- the text of a comment survives printing and re-reading: for a comment whose pieces (separated by `\n`) are
+    empty or carry no leading / trailing `#`, blank, tab or carriage return — which is what `Comment.__init__`
+    produces — `Comment.ofString` applied to the printed `#` lines joined by line ends gives the comment back. -/
+theorem comment_roundtrip (c : Comment)
+    (hsegs : ∀ s ∈ Comment.splitLines c.parsed.toList, s = [] ∨ Comment.NormalSeg s)
+    (hne : Comment.clines (Comment.splitLines c.parsed.toList) ≠ []) :
+    Comment.ofString (String.ofList (Comment.joinNL ((Printer.commentLines (some c)).map String.toList))) = c :=
+  Comment.normalise_commentLines c hsegs hne
+
+/-! ### trivia -/
+
+/-- `\r\n` line ends: for every document without carriage returns — well-formed or not, with or without comments —
+    the parser gives the same answer (declarations or error) when every line end is written `\r\n`. -/
+theorem parse_crlf (doc : Chars) (h : '\r' ∉ doc) : parse (crlf doc) = parse doc :=
+  parse_crlf_eq doc h
+
+/-- blank lines between declarations: the printed declarations parse to the same list whether or not an empty line
+    stands before each of them (free choice per declaration, the first excepted). -/
+theorem parse_blank_lines (d : Decl) (rest : List (Bool × Decl)) (hd : WFDeclA d) (hrest : ∀ bd ∈ rest, WFDeclA bd.2) :
+    parse (unlinesC ((specPLines (docSpecsWith ((false, d) :: rest))).map PLine.chars)) = .ok (d :: rest.map (·.2)) :=
+  parse_layout_with_blanks d rest hd hrest
+
+/-- a tab inside the indentation of a code line can be written as four blanks: the physical line contributes the same
+    logical line (text and indentation), whatever was read before it. -/
+theorem tab_or_four_spaces_same_line (st : List LLine × Bool) (n : Nat) (pre post : Chars) (hpre : pre.all isWs = true)
+    (hcode : isCommentLine (pre ++ '\t' :: post) = false) :
+    groupStep st (n, pre ++ ' ' :: ' ' :: ' ' :: ' ' :: post) = groupStep st (n, pre ++ '\t' :: post) :=
+  groupStep_tab st n pre post hpre hcode
 
 /-! ### non-vacuity: whole documents on the model -/
 
@@ -132,6 +213,9 @@ example : (parseString "struct Foo\n\t@alignment(8)\n\tab = array(uint8, __FILL_
 
 example : WFAlias { name := "Hash256", linkedType := .buffer 32 } :=
   ⟨⟨'H', 'a', "sh256".toList, rfl, by decide, by decide, by decide⟩, trivial⟩
+
+example : Comment.ofString "# size of the entity\n#\n# [key] second paragraph" = ⟨"size of the entity\n[key] second paragraph"⟩ := by
+  decide
 
 /-- a document with all three kinds of declaration satisfies the hypotheses of `parse_render` -/
 example : WFDecls [
